@@ -83,6 +83,53 @@ Proof.
   intros l y. unfold set_of. rewrite set_of_in_gen. simpl. split; [intros [H|H]; [exact H|contradiction]|auto].
 Qed.
 
+(* the std::map model: iteration is in strictly ascending address order, whatever the insertion order *)
+Inductive keys_ascending {A : Type} : list (N * A) -> Prop :=
+| ka_nil : keys_ascending []
+| ka_one : forall x, keys_ascending [x]
+| ka_cons : forall x y l, fst x < fst y -> keys_ascending (y :: l) -> keys_ascending (x :: y :: l).
+
+Lemma addr_insert_head : forall (A : Type) k (v : A) l,
+  l <> [] -> exists y r, addr_insert k v l = y :: r /\ (fst y = k \/ (fst y < k /\ exists r', l = y :: r')).
+Proof.
+  intros A k v l Hl. destruct l as [|[k' v'] r]; [contradiction|]. simpl.
+  destruct (k <? k') eqn:E1.
+  - exists (k, v), ((k', v') :: r). split; [reflexivity|left; reflexivity].
+  - destruct (k =? k') eqn:E2.
+    + exists (k, v), r. split; [reflexivity|left; reflexivity].
+    + exists (k', v'), (addr_insert k v r). split; [reflexivity|]. right. simpl.
+      apply N.ltb_ge in E1. apply N.eqb_neq in E2. split; [lia|exists r; reflexivity].
+Qed.
+
+Lemma addr_insert_ascending : forall (A : Type) k (v : A) l,
+  keys_ascending l -> keys_ascending (addr_insert k v l).
+Proof.
+  intros A k v l H. induction H as [|[k' v']|[k1 v1] [k2 v2] l Hlt Hs IH]; simpl.
+  - constructor.
+  - destruct (k <? k') eqn:E1; [constructor; [simpl; apply N.ltb_lt; exact E1|constructor]|].
+    destruct (k =? k') eqn:E2; [constructor|].
+    apply N.ltb_ge in E1. apply N.eqb_neq in E2. constructor; [simpl; lia|constructor].
+  - simpl in *. destruct (k <? k1) eqn:E1.
+    + constructor; [simpl; apply N.ltb_lt; exact E1|]. constructor; assumption.
+    + destruct (k =? k1) eqn:E2.
+      * apply N.eqb_eq in E2. subst k1. constructor; assumption.
+      * apply N.ltb_ge in E1. apply N.eqb_neq in E2.
+        destruct (k <? k2) eqn:E3.
+        -- constructor; [simpl; lia|]. constructor; [simpl; apply N.ltb_lt; exact E3|exact Hs].
+        -- destruct (k =? k2) eqn:E4.
+           ++ apply N.eqb_eq in E4. subst k2. constructor; [simpl; lia|].
+              exact IH.
+           ++ constructor; [simpl; exact Hlt|exact IH].
+Qed.
+
+Lemma addr_map_ascending : forall (A : Type) (l : list (N * A)), keys_ascending (addr_map l).
+Proof.
+  intros A l. unfold addr_map.
+  assert (G : forall acc, keys_ascending acc -> keys_ascending (fold_left (fun s kv => addr_insert (fst kv) (snd kv) s) l acc)).
+  { induction l as [|x l IH]; intros acc Ha; simpl; [exact Ha|]. apply IH. apply addr_insert_ascending. exact Ha. }
+  apply G. constructor.
+Qed.
+
 (* ------------------------------------------------------------------ noninterference of the generators *)
 
 Section Proofs.
